@@ -555,6 +555,54 @@ func c09ChildMain(args []string) int {
 		if calendar.VerifCacheLockHeld() {
 			res.LockHeld = append(res.LockHeld, -1)
 		}
+	case "firstuse":
+		// simultaneous FIRST use: each goroutine owns a private Lunar of the same moment (built before the start barrier,
+		// constructors only) and calls every accessor in one common, rotated order, so that lazily initialised
+		// package-level state is first touched by all goroutines at once, with no lock in between to order them
+		const G = 16
+		res.Goroutines = G
+		rng := rand.New(rand.NewSource(seed*53 + int64(idx)))
+		y := c09Years[rng.Intn(len(c09Years))]
+		_, m, d := randDayIn(rng, y, y)
+		hh, mi, ss := rng.Intn(24), rng.Intn(60), rng.Intn(60)
+		objs := make([]*calendar.Lunar, G)
+		for g := range objs {
+			objs[g] = calendar.NewSolar(y, m, d, hh, mi, ss).GetLunar()
+		}
+		ms := zeroArgMethods(reflect.TypeOf(objs[0]))
+		rot := (idx * 37) % len(ms)
+		digs := make([]string, G)
+		var wg sync.WaitGroup
+		start := make(chan struct{})
+		for g := 0; g < G; g++ {
+			wg.Add(1)
+			go func(g int) {
+				defer wg.Done()
+				v := reflect.ValueOf(objs[g])
+				parts := make([]string, len(ms))
+				<-start
+				for k := range ms {
+					i := (k + rot) % len(ms)
+					out, pv := callMethod(v, ms[i])
+					if pv != nil {
+						parts[i] = ms[i].Name + "=panic:" + fmt.Sprint(pv)
+					} else {
+						parts[i] = ms[i].Name + "=" + render(out, 0, nil)
+					}
+				}
+				digs[g] = strings.Join(parts, ";")
+			}(g)
+		}
+		close(start)
+		wg.Wait()
+		again := digest1(calendar.NewSolar(y, m, d, hh, mi, ss).GetLunar())
+		again = strings.TrimSuffix(strings.TrimPrefix(again, "Lunar{"), ";}")
+		for g := 0; g < G; g++ {
+			res.SharedCalls += len(ms)
+			if digs[g] != again {
+				res.Shared = append(res.Shared, fmt.Sprintf("first concurrent use: a private Lunar of %04d-%02d-%02d %02d:%02d:%02d walked by goroutine %d differs from a later sequential walk: %s", y, m, d, hh, mi, ss, g, diffDigests(digs[g], again)))
+			}
+		}
 	case "shared":
 		// one shared object of each type, walked concurrently through all zero-argument accessors
 		const G = 16
@@ -928,6 +976,9 @@ func c09Custom(pc *Parent) {
 	}
 	for k := 0; k < sharedRounds; k++ {
 		jobs = append(jobs, rr{"shared", k})
+	}
+	for k := 0; k < 2*sharedRounds; k++ {
+		jobs = append(jobs, rr{"firstuse", k}) // cheap: one fresh process, 16 goroutines, one walk each
 	}
 	results := make([]c09Run, len(jobs))
 	for i, j := range jobs {
